@@ -612,11 +612,18 @@ class ReplaceWiresAndVariables(ast.NodeTransformer):
         self.variables = variables
         self.arguments = arguments
         
+    def visit_VerilogWire(self, node):
+        # wires created from get/put/prepare calls carry the attribute name
+        if (node.name in self.ports.keys()):
+            return self.ports[node.name]
+            
+        return node
+        
     def visit_Name(self, node):
         
         name = node.id
         if (name in self.ports.keys()):
-            return VerilogWire(name)
+            return self.ports[name]
 
         if (name in self.variables.keys()):
             return VerilogVariable(name, self.variables[name].type)
@@ -632,7 +639,7 @@ class ReplaceWiresAndVariables(ast.NodeTransformer):
         
         name = node.attr
         if (name in self.ports.keys()):
-            return VerilogWire(name)
+            return self.ports[name]
 
         if (name in self.variables.keys()):
             return VerilogVariable(name, self.variables[name].type)
@@ -754,7 +761,9 @@ class ExtractInitializers(ast.NodeTransformer):
             else:
                 print('# name not expected', fname)
 
-            w = VerilogWire(pname)
+            # the Verilog signal is the port, whose name can differ from the
+            # name of the attribute that holds its wire
+            w = VerilogWire(self.getPortName(pname))
             self.ports[pname] = w        
             self.top.wires.wires.append(w)
             return None
@@ -810,6 +819,17 @@ class ExtractInitializers(ast.NodeTransformer):
         
         return node
                 
+    def getPortName(self, attr):
+        from py4hw.rtl_generation import getValidVerilogName
+
+        wire = getattr(self.obj, attr, None)
+        
+        for port in self.obj.inPorts + self.obj.outPorts + self.obj.inOutPorts:
+            if (port.wire is wire):
+                return getValidVerilogName(port.name)
+                
+        return attr
+
     def visit_Call(self, node):
         from py4hw.rtl_generation import getAstName
 
